@@ -437,6 +437,20 @@ func (fi *fileInstr) run() (bool, error) {
 				c.InsertAfter(yieldStmt(id))
 				fi.changed = true
 			}
+		case *ast.IfStmt:
+			// if v, ok := <-ch; ok { ... }: the receive is in the init statement
+			if inList(c) && x.Init != nil && hasRecv(x.Init) {
+				id := fi.site(x, "recv-in-if")
+				c.InsertBefore(yieldStmt(id))
+				x.Body.List = append([]ast.Stmt{yieldStmt(id)}, x.Body.List...)
+				switch e := x.Else.(type) {
+				case *ast.BlockStmt:
+					e.List = append([]ast.Stmt{yieldStmt(id)}, e.List...)
+				case nil:
+					x.Else = &ast.BlockStmt{List: []ast.Stmt{yieldStmt(id)}}
+				}
+				fi.changed = true
+			}
 		case *ast.ReturnStmt:
 			if inList(c) && hasRecv(x) {
 				id := fi.site(x, "recv")
